@@ -115,7 +115,8 @@ def run_tlc(module: str, cfg_text: str, *, workers: int = 16, timeout: int = 900
             env: Optional[Dict[str, str]] = None, simulate: Optional[str] = None,
             depth: Optional[int] = None, coverage: bool = False, deadlock: bool = False,
             seed: Optional[int] = None, extra: Iterable[str] = (), tags: Iterable[str] = (),
-            name: Optional[str] = None, heap: str = "8g", dfs_queue: bool = False) -> TLCResult:
+            name: Optional[str] = None, heap: str = "8g", dfs_queue: bool = False,
+            defs: Optional[str] = None) -> TLCResult:
     """Run TLC on spec/<module>.tla with the given cfg text.
 
     `tags`: PrintT(<<"TAG", jsonString>>) lines with these tags are parsed (json) and returned.
@@ -129,7 +130,12 @@ def run_tlc(module: str, cfg_text: str, *, workers: int = 16, timeout: int = 900
     spec = SPEC_DIR / f"{module}.tla"
     if not spec.exists():
         raise MachineryError(f"spec {spec} missing")
-    jopts = ["-XX:+UseParallelGC", f"-Xmx{heap}", f"-Djava.io.tmpdir={sdir}"]
+    if defs is not None:
+        # wrapper module (constants that a .cfg cannot express, e.g. negative numbers): X_MC EXTENDS X
+        wrap = f"{module}_MC{int(time.time()*1000) % 100000000}"
+        spec = sdir / f"{wrap}.tla"
+        spec.write_text(f"---- MODULE {wrap} ----\nEXTENDS {module}\n{defs}\n====\n")
+    jopts = ["-XX:+UseParallelGC", f"-Xmx{heap}", f"-Djava.io.tmpdir={sdir}", f"-DTLA-Library={SPEC_DIR}"]
     if dfs_queue:
         jopts.append("-Dtlc2.tool.queue.IStateQueue=StateDeque")
     cmd = ["java", *jopts, "-cp", TLA_CP, "tlc2.TLC", "-workers", str(workers), "-metadir", str(meta),
@@ -322,9 +328,9 @@ class Check:
             replay_path = d / f"{self.tier}_{self.seed}.json"
             kept, per = [], {}
             for v in self.violations:
-                g = (v["clause"], str(v["key"].get("source")))
+                g = (v["clause"], json.dumps(v["key"], default=str, sort_keys=True)[:200])
                 per[g] = per.get(g, 0) + 1
-                if per[g] <= 20:
+                if per[g] <= 3 and len(kept) < 400:
                     kept.append(v)
             replay_path.write_text(json.dumps({"property": self.prop, "tier": self.tier, "seed": self.seed,
                                                "repo": str(REPO), "n_violations": len(self.violations),
@@ -350,10 +356,14 @@ class Check:
         (EVIDENCE_DIR / f"{self.prop}.json").write_text(json.dumps(ev, indent=1, default=str) + "\n")
         if self.violations:
             seen: Dict[str, int] = {}
+            keys: Dict[str, set] = {}
             for v in self.violations:
                 seen[v["clause"]] = seen.get(v["clause"], 0) + 1
-                if seen[v["clause"]] == 1:
-                    print(f"  violated clause {v['clause']} key={json.dumps(v['key'], default=str)[:300]}")
+                ks = json.dumps(v['key'], default=str)[:300]
+                kk = keys.setdefault(v["clause"], set())
+                if ks not in kk and len(kk) < 12:
+                    kk.add(ks)
+                    print(f"  violated clause {v['clause']} key={ks}")
             print("  violation counts: " + json.dumps(seen))
             print(f"VIOLATION property={self.prop} replay={replay_path}")
             return 1
